@@ -116,11 +116,19 @@ def atomicStore (d : Dir) (n : Name) (i : Index) (fails : Bool) : Dir × Bool :=
   else if fails then (d, false)
   else (d.set n (encodeIndex i), true)
 
-/-- `S3IndexStore.GetIndex` / `SFTPIndexStore.GetIndex`.  A missing object is an error that neither
-    satisfies `os.IsNotExist` nor is a `NoSuchObject`: minio's `GetObject` fails on the first read, inside
-    `IndexFromReader` ("reading index: The specified key does not exist"); sftpindex.go replaces the
-    not-exist error by a new one ("Index file does not exist: …"). -/
+/-- `S3IndexStore.GetIndex` / `SFTPIndexStore.GetIndex`.  A missing object is reported as missing
+    (`NoSuchObject`): `S3IndexStore.GetIndexReader` asks for the object's metadata (`Stat`) and maps `NoSuchKey`,
+    `SFTPIndexStore.GetIndexReader` maps the not-exist error of `Open`.  (On the pinned tree both came back as an
+    unclassifiable error — minio's `GetObject` only fails on the first read, inside `IndexFromReader`; sftpindex.go
+    replaced the not-exist error by a new one — so that an index server in front of such a store answered 400, and
+    200 to HEAD on S3, for an index that does not exist: defect D29, repaired.) -/
 def atomicGet (alg : DigestAlg) (d : Dir) (n : Name) : GetRes :=
+  match d.get n with
+  | none => .notFound
+  | some b => decodeRes alg b
+
+/-- the pinned tree's behaviour, kept as a named mutant -/
+def atomicGetLegacy (alg : DigestAlg) (d : Dir) (n : Name) : GetRes :=
   match d.get n with
   | none => .otherErr
   | some b => decodeRes alg b
